@@ -33,6 +33,11 @@ func init() {
 		}
 		Parallel(n, func(i int) { subdecRun(druns[i], c.SubRng(5000+i), i%3 != 2) })
 		c.AddStat("decorator_conformance_runs", n)
+		{
+			hr := TD.NewRun("close-abreast-hammer", nil)
+			hr.Key = "close-abreast-hammer"
+			subdecCloseHammer(hr, c.Pick(1500, 40000))
+		}
 		subdecReplayAll(c, TD)
 		return gcDrive(c, gcScenariosC07(c))
 	}
@@ -132,6 +137,12 @@ func gcScenariosC04(c *Ctx) []gcScenario {
 				Subs: []gcSub{{Name: "s1", Topic: "t1", Behav: "nack1"}, {Name: "s2", Topic: "t1", Behav: "slow"}, {Name: "s3", Topic: "t1", Behav: "ack", Phase: 2}},
 				Pubs: []gcPub{{Name: "p1", Topic: "t1", N: 2, DeadCtx: true}, {Name: "p2", Topic: "t1", N: 2, Batch: true, DeadCtx: true}}})
 		}
+	}
+	// topic names are arbitrary strings: names that differ in surrounding white space are different topics
+	for _, per := range []bool{false, true} {
+		scs = append(scs, gcScenario{Class: "whitespace-topics/" + gcCfgName(per, false, 1), Persistent: per, Buffer: 1,
+			Subs: []gcSub{{Name: "s1", Topic: "t1", Behav: "ack"}, {Name: "s2", Topic: "t1 ", Behav: "ack"}, {Name: "s3", Topic: " t1", Behav: "nack1"}, {Name: "s4", Topic: "t1\n", Behav: "ack", Phase: 2}},
+			Pubs: []gcPub{{Name: "p1", Topic: "t1", N: 2}, {Name: "p2", Topic: "t1 ", N: 2}, {Name: "p3", Topic: " t1", N: 1}, {Name: "p4", Topic: "t1\n", N: 1}, {Name: "p5", Topic: "\tt1", N: 1}}})
 	}
 	// the only subscription of a topic is cancelled and the topic is subscribed again while the old subscription is being taken
 	// out: the new one is a subscription like any other -- it gets what is published afterwards
@@ -398,6 +409,26 @@ func gcScenariosC07(c *Ctx) []gcScenario {
 					scs = append(scs, sc)
 				}
 			}
+			// a subscription whose context runs into its deadline at the very moment Close is called
+			if d == 0 {
+				for k := 0; k < 6; k++ {
+					scs = append(scs, gcScenario{Class: "deadline-at-close/" + gcCfgName(cf.per, cf.blk, k%2), Persistent: cf.per, Blocking: cf.blk, Buffer: k % 2,
+						Subs: []gcSub{{Name: "s1", Topic: "t1", Behav: "ack"}, {Name: "s2", Topic: "t1", Behav: "ack", Deadline: true, CancelAt: 3}, {Name: "s3", Topic: "t2", Behav: "ack", Deadline: true}},
+						Pubs: []gcPub{{Name: "p1", Topic: "t1", N: 2}}})
+				}
+			}
+			// a subscription whose context ends by its deadline, its tear-down parked while Close arrives
+			if d == 0 {
+				for _, pt := range []string{"gochannel.teardown.woken", "gochannel.sub.close.before_lock", "gochannel.unsubscribe.before_lock"} {
+					for _, ev := range []string{"close", "close2"} {
+						g := gcGate{Point: pt, ID: "s:s2", Event: ev}
+						sc := base(&g, true)
+						sc.Class = "deadline-ctx/" + sc.Class
+						sc.Subs[1].Deadline = true
+						scs = append(scs, sc)
+					}
+				}
+			}
 			// a subscription made with a context that cannot be cancelled, parked inside Subscribe while Close / a second Close / a Publish arrives
 			if d == 0 {
 				for _, ev := range []string{"close", "close2", "publish:t1"} {
@@ -501,6 +532,17 @@ func gcScenariosC11(c *Ctx) []gcScenario {
 				Pubs: []gcPub{{Name: "p0", Topic: "t1", N: 2}},
 				Gate: &gcGate{Point: pt, ID: "s:s2", Event: "publish:t1"}})
 		}
+	}
+	// a consumer that holds a message for seconds before it acks: the message is its only one until then, and comes once
+	scs = append(scs, gcScenario{Class: "long-held-message", Persistent: true, Buffer: 1,
+		Subs: []gcSub{{Name: "s1", Topic: "t1", Behav: "stall6"}, {Name: "s2", Topic: "t1", Behav: "ack", Phase: 2}},
+		Pubs: []gcPub{{Name: "p1", Topic: "t1", N: 2}}})
+	// a long log (1100 messages) and a Publish that overlaps the Subscribe call at each of its points
+	for _, pt := range []string{"gochannel.subscribe.closed_checked", "gochannel.subscribe.locked", "gochannel.subscribe.replay", "gochannel.subscribe.registered"} {
+		scs = append(scs, gcScenario{Class: "long-log-overlap/" + pt, Persistent: true, Buffer: 1,
+			Subs: []gcSub{{Name: "s2", Topic: "t1", Behav: "ack", Phase: 1, AfterPubs: true}},
+			Pubs: []gcPub{{Name: "p0", Topic: "t1", N: 1100, Batch: true}},
+			Gate: &gcGate{Point: pt, ID: "s:s2", Event: "publish:t1"}})
 	}
 	// a long backlog replayed to a consumer that publishes (to another topic of the same Pub/Sub) before it acks each message
 	for _, buf := range []int{0, 2} {
